@@ -16,14 +16,29 @@ Engines (all enumerate their stated space completely; `seed` only picks filler e
   pbkdf2    E2  the vendored PBKDF2 object: every history of read sizes (depth <= 3) x iterations x hash x
                 (password, salt) alphabet == hashlib.pbkdf2_hmac stream; helper.hmac_sha512_kdf
   generate  E1  secure_mnemonic with `randbits` and `time` replaced by enumerated values: output is a valid
-                sentence of the requested size
+                sentence of the requested size; invalid sizes rejected; every bit of the random source matters
+  separators E1 the same token sequence written with other separators / surrounding white space: whatever the
+                library accepts decodes / derives like the single-space sentence; invalid ones stay rejected
+  tokens    E1  checksum-valid sentences in which one token is replaced by a string that is neither a word nor
+                a four-letter prefix (proper prefixes, word+'x', case variants): not accepted as another sentence
+  hd_args   E1  HDPrivateKey.from_mnemonic with non-default password / network / path / version bytes:
+                rejection is independent of them, accepted ones give the reference key
+  generate_hd E1 HDPrivateKey.generate with enumerated randomness: returned sentence valid, returned key is the
+                reference key of that sentence with the given password and network
+  seedpicker E1 calc_valid_seedpicker_checksums: yields exactly the last words the reference accepts
+Further case kinds inside the engines above: encode/badsize (entropy sizes 0..40 bytes outside the five valid
+ones are rejected), seed/strpp (str passphrases: rejected, or the NFKD UTF-8 reference), pbkdf2/duo (two live
+objects, interleaved reads), pbkdf2/sweep + kdfsweep (every password / salt length 0..260), pairs/grid + triple
+(thorough: substitutions at arbitrary position pairs / triples).
 """
 import hashlib
 import hmac
 import itertools
+import unicodedata
 
 from mc.core import Engine, Res, attempt, Rejected, filler
 from mc.ref import bip39ref as R
+from mc.ref import bip32ref as B32
 
 PROP = "C14"
 ENT = R.ENT_BYTES  # (16, 20, 24, 28, 32)
@@ -187,7 +202,16 @@ def gen_encode(tier, seed):
         for b in encode_bases(tier):
             for p in range(nwords(n)):
                 cases.append({"k": "window", "n": n, "base": b, "p": p, "seed": seed})
+    # entropy sizes BIP39 does not define (ENT must be 128..256 bits, a multiple of 32): rejected
+    for n in range(0, 41 if tier == "quick" else 81):
+        if n not in ENT:
+            for nm in ("zero", "ones", "f0"):
+                cases.append({"k": "badsize", "n": n, "nm": nm, "seed": seed})
     return cases
+
+
+def size_class(n):
+    return "lt16" if n < 16 else "gt32" if n > 32 else "between"
 
 
 def check_entropy(res, vc, e, nm, bulk=None):
@@ -232,6 +256,19 @@ def run_encode(case):
     res = Res()
     vc = {"engine": "encode", "case": case}
     n = case["n"]
+    if case["k"] == "badsize":
+        from buidl.mnemonic import bytes_to_mnemonic
+
+        e = base_entropy(case["seed"], n, case["nm"])
+        got = attempt(bytes_to_mnemonic, e, n * 8)
+        if isinstance(got, Rejected) or got is None or got is False:
+            res.ok("entropy size outside 16/20/24/28/32 bytes rejected", nontrivial=("badsize", n, case["nm"]))
+        else:
+            res.violation(
+                f"C14/encode/accepted-invalid-size/{size_class(n)}", vc, got, None,
+                f"bytes_to_mnemonic({n} bytes, num_bits={n * 8}) returns a sentence; BIP39 defines only 128/160/192/224/256 bits",
+            )
+        return res
     if case["k"] == "one":
         e = bytes.fromhex(case["e"])
         good = check_entropy(res, vc, e, case["nm"])
@@ -325,12 +362,65 @@ def gen_pairs(tier, seed):
             for p in ps:
                 for w1 in range(0, 2048, 4):
                     cases.append({"n": n, "base": "f0", "p": p, "q": last, "w1lo": w1, "w1hi": w1 + 4, "seed": seed})
+        # arbitrary position pairs (last word untouched) and triples (p, q, last) over a sub-alphabet
+        n = 16
+        last = nwords(n) - 1
+        for p in range(last):
+            for q in range(p + 1, last):
+                cases.append({"k": "grid", "n": n, "base": "f0", "p": p, "q": q, "seed": seed})
+        for p, q in ((0, 1), (0, 10), (5, 6), (9, 10)):
+            for w1 in SUB64[::4]:
+                cases.append({"k": "triple", "n": n, "base": "f0", "p": p, "q": q, "w1": w1, "seed": seed})
     return cases
+
+
+# 64-word sub-alphabet: the ends and the middle of the list plus every 38th word
+SUB64 = sorted(set([0, 1, 2, 1022, 1023, 1024, 1025, 2045, 2046, 2047] + list(range(5, 2048, 38))))
+assert len(SUB64) == 64, len(SUB64)
+
+
+def run_pairs_sub(case):
+    from buidl.mnemonic import mnemonic_to_bytes
+
+    res = Res()
+    vc = {"engine": "pairs", "case": case}
+    n, p, q, k = case["n"], case["p"], case["q"], case["k"]
+    words = R.encode(base_entropy(case["seed"], n, case["base"]))
+    last = len(words) - 1
+    acc = rej = 0
+    firsts = SUB64 if k == "grid" else [case["w1"]]
+    seconds = SUB64 if k == "grid" else SUB64[::4]
+    thirds = [None] if k == "grid" else range(2048)
+    for w1 in firsts:
+        t = list(words)
+        t[p] = R.WORDS[w1]
+        for w2 in seconds:
+            t[q] = R.WORDS[w2]
+            for w3 in thirds:
+                if w3 is not None:
+                    t[last] = R.WORDS[w3]
+                exp = R.decode(t)
+                got = attempt(mnemonic_to_bytes, " ".join(t))
+                if same(got, exp):
+                    if exp is None:
+                        rej += 1
+                    else:
+                        acc += 1
+                else:
+                    res.violation(
+                        f"C14/pairs/{cls_accept(got, exp)}/{k}", vc, {"w1": R.WORDS[w1], "w2": R.WORDS[w2], "w3": None if w3 is None else R.WORDS[w3], "got": got}, exp,
+                        f"substitution at positions {p},{q}" + ("" if w3 is None else f",{last}"),
+                    )
+    res.bulk("accepted==ref (checksum matches)", acc, acc)
+    res.bulk("rejected==ref (checksum differs)", rej, rej)
+    return res
 
 
 def run_pairs(case):
     from buidl.mnemonic import mnemonic_to_bytes
 
+    if case.get("k") in ("grid", "triple"):
+        return run_pairs_sub(case)
     res = Res()
     vc = {"engine": "pairs", "case": case}
     n, p, q = case["n"], case["p"], case["q"]
@@ -526,12 +616,60 @@ def gen_seed(tier, seed):
                         nets.append("testnet")
                     for net in nets:
                         cases.append({"n": n, "base": b, "form": form, "pp": name, "net": net, "seed": seed})
+    # passphrase given as text: the library may refuse it, or must use its NFKD UTF-8 encoding (BIP39)
+    for n in (16, 32) if tier == "quick" else ENT:
+        for form in ("full",) if tier == "quick" else FORMS:
+            for name in STR_PP:
+                cases.append({"k": "strpp", "n": n, "base": "f0", "form": form, "pp": name, "net": "mainnet", "seed": seed})
     return cases
+
+
+STR_PP = {
+    "str-empty": "",
+    "str-ascii": "TREZOR",
+    "str-latin1": "p\u00e4ssw\u00f6rd",  # precomposed: NFKD decomposes
+    "str-nfc": "\u00e9",
+    "str-nfd": "e\u0301",
+    "str-kana": "\u30d1\u30b9",  # precomposed katakana PA: NFKD decomposes
+    "str-cjk": "\u5bc6\u7801",  # invariant under NFKD
+    "str-compat": "\ufb01x\u2460",  # ligature fi, circled 1: only the K (compatibility) mapping changes them
+}
+
+
+def strpp_class(s):
+    if s.isascii():
+        return "ascii"
+    return "nfkd-invariant" if unicodedata.normalize("NFKD", s) == s else "needs-nfkd"
+
+
+def run_seed_strpp(case):
+    from buidl.hd import HDPrivateKey
+
+    res = Res()
+    vc = {"engine": "seed", "case": case}
+    s = STR_PP[case["pp"]]
+    toks = spell(R.encode(base_entropy(case["seed"], case["n"], case["base"])), case["form"])
+    sentence = " ".join(toks)
+    got = attempt(lambda: HDPrivateKey.from_mnemonic(sentence, s).xprv())
+    if isinstance(got, Rejected) or got is None:
+        res.ok("str passphrase rejected", nontrivial=("strpp", case["n"], case["form"], case["pp"]))
+        return res
+    exp = R.xprv(R.seed(toks, unicodedata.normalize("NFKD", s).encode("utf-8")))
+    if got == exp:
+        res.ok("str passphrase: xprv == reference with NFKD UTF-8", nontrivial=("strpp", case["n"], case["form"], case["pp"]))
+    else:
+        res.violation(
+            f"C14/seed/str-passphrase/{strpp_class(s)}", vc, got, exp,
+            f"from_mnemonic accepts the text passphrase {s!r} but the key is not the one of its NFKD UTF-8 encoding",
+        )
+    return res
 
 
 def run_seed(case):
     from buidl.hd import HDPrivateKey
 
+    if case.get("k") == "strpp":
+        return run_seed_strpp(case)
     res = Res()
     vc = {"engine": "seed", "case": case}
     n = case["n"]
@@ -638,12 +776,115 @@ def gen_pbkdf2(tier, seed):
     for pw in pw_alphabet(seed):
         for salt in salt_alphabet(seed):
             cases.append({"k": "kdf", "pw": pw, "salt": salt, "seed": seed})
+    # two objects alive at the same time, reads interleaved: every history of (object, size) of depth <= 3
+    dsizes = [1, 64, 65] if tier == "quick" else [0, 1, 20, 64, 65, 129]
+    steps = [(o, s) for o in (0, 1) for s in dsizes]
+    for cfg in DUO_CFGS:
+        if cfg == "kdf2048":
+            hs = [list(h) for d in (1, 2) for h in itertools.product([(o, s) for o in (0, 1) for s in (32, 64)], repeat=d)]
+        else:
+            hs = [list(h) for d in (1, 2, 3) for h in itertools.product(steps, repeat=d)]
+        for h in hs:
+            cases.append({"k": "duo", "cfg": cfg, "hist": [list(x) for x in h], "seed": seed})
+    # every password length and every salt length 0..260 (both hashes, 2 iterations, one 70-byte read)
+    for what in ("pw", "salt"):
+        for hn in ("sha1", "sha512"):
+            for L in range(0, 261):
+                cases.append({"k": "sweep", "what": what, "hash": hn, "L": L, "seed": seed})
+    # the helper used by from_mnemonic around the SHA-512 block size (thorough: every length 0..260)
+    for L in range(120, 137) if tier == "quick" else range(0, 261):
+        cases.append({"k": "kdfsweep", "L": L, "seed": seed})
     return cases
+
+
+# name -> ((password, salt, iterations, hash) of object 0, the same for object 1); names of pw/salt alphabets
+DUO_CFGS = {
+    "same": (("p", "salt", 2, "sha512"), ("p", "salt", 2, "sha512")),
+    "iterations": (("p", "salt", 1, "sha512"), ("p", "salt", 3, "sha512")),
+    "password": (("p", "mnemonic", 2, "sha512"), ("b129", "mnemonic", 2, "sha512")),
+    "salt": (("b65", "salt", 2, "sha512"), ("b65", "mnemonic", 2, "sha512")),
+    "hash": (("str-ascii", "salt", 2, "sha1"), ("str-ascii", "salt", 2, "sha512")),
+    "kdf2048": (("sentence24", "mnemonic", 2048, "sha512"), ("sentence24", "str-utf8", 2048, "sha512")),
+}
+
+
+def len_rel(L, hn):
+    blk = hashlib.new(hn).block_size
+    return "lt-block" if L < blk else "eq-block" if L == blk else "gt-block"
+
+
+def run_pbkdf2_more(case):
+    from buidl.pbkdf2 import PBKDF2
+
+    res = Res()
+    vc = {"engine": "pbkdf2", "case": case}
+    k = case["k"]
+    if k == "duo":
+        pws, salts = pw_alphabet(case["seed"]), salt_alphabet(case["seed"])
+        objs, streams = [], []
+        need = [sum(s for o, s in case["hist"] if o == i) for i in (0, 1)]
+        for i, (pw, salt, it, hn) in enumerate(DUO_CFGS[case["cfg"]]):
+            o = attempt(PBKDF2, pws[pw], salts[salt], it, getattr(hashlib, hn), hmac)
+            if isinstance(o, Rejected):
+                res.violation(f"C14/pbkdf2/interleaved/construct/{case['cfg']}", vc, o, "object", "PBKDF2 constructor refuses the input")
+                return res
+            objs.append(o)
+            streams.append(hashlib.pbkdf2_hmac(hn, as_bytes(pws[pw]), as_bytes(salts[salt]), it, need[i]) if need[i] else b"")
+        pos = [0, 0]
+        for step, (o, sz) in enumerate(case["hist"]):
+            exp = streams[o][pos[o] : pos[o] + sz]
+            pos[o] += sz
+            got = attempt(objs[o].read, sz)
+            res.states += 1
+            res.transitions += 1
+            if got != exp:
+                touched = len({x for x, _ in case["hist"][: step + 1]})
+                res.violation(
+                    f"C14/pbkdf2/interleaved/{case['cfg']}/{'other-object-read-before' if touched == 2 else 'single-object'}", vc,
+                    {"step": step, "object": o, "got": got}, exp,
+                    f"two live PBKDF2 objects ({case['cfg']} differs): read #{step} of {sz} bytes from object {o} differs from that object's PBKDF2 stream",
+                )
+                return res
+        res.ok("interleaved reads==hashlib streams", nontrivial=("duo", case["cfg"], tuple(map(tuple, case["hist"]))))
+        return res
+    if k == "sweep":
+        hn, L = case["hash"], case["L"]
+        v = filler(case["seed"], "c14-sweep", L, L)
+        pw, salt = (v, b"mnemonic") if case["what"] == "pw" else (b"p", v)
+        exp = hashlib.pbkdf2_hmac(hn, pw, salt, 2, 70)
+        got = attempt(lambda: PBKDF2(pw, salt, 2, getattr(hashlib, hn), hmac).read(70))
+        res.states += 1
+        res.transitions += 1
+        if got != exp:
+            res.violation(
+                f"C14/pbkdf2/length-sweep/{case['what']}/{len_rel(L, hn)}", vc, got, exp,
+                f"{hn}, 2 iterations, {case['what']} of {L} bytes: 70-byte read differs from hashlib.pbkdf2_hmac",
+            )
+        else:
+            res.ok("length sweep==hashlib", nontrivial=("sweep", case["what"], hn, L))
+        return res
+    if k == "kdfsweep":
+        from buidl.helper import hmac_sha512_kdf
+
+        L = case["L"]
+        pw = filler(case["seed"], "c14-sweep", L, L)
+        exp = hashlib.pbkdf2_hmac("sha512", pw, b"mnemonic", 2048, 64)
+        got = attempt(hmac_sha512_kdf, pw, b"mnemonic")
+        res.states += 1
+        res.transitions += 1
+        if got != exp:
+            res.violation(f"C14/pbkdf2/hmac_sha512_kdf/len-{len_rel(L, 'sha512')}", vc, got, exp, f"helper.hmac_sha512_kdf with a {L}-byte password differs from PBKDF2-HMAC-SHA512 (2048 rounds, 64 bytes)")
+        else:
+            res.ok("hmac_sha512_kdf==hashlib (length sweep)", nontrivial=("kdfsweep", L))
+        return res
+    raise ValueError(k)
 
 
 def run_pbkdf2(case):
     from buidl.pbkdf2 import PBKDF2
 
+    if case["k"] in ("duo", "sweep", "kdfsweep"):
+        return run_pbkdf2_more(case)
     res = Res()
     vc = {"engine": "pbkdf2", "case": case}
     pw = pw_alphabet(case["seed"])[case["pw"]]
@@ -704,12 +945,86 @@ def gen_generate(tier, seed):
             for xn, x in xs.items():
                 for t in ts:
                     cases.append({"nb": nb, "r": str(r), "x": str(x), "t": t, "rn": rn, "xn": xn})
+        # every single bit of the random source flipped (the clock and extra_entropy held fixed)
+        for rn in ("0", "f") if tier == "quick" else ("0", "max", "f"):
+            cases.append({"k": "bits", "nb": nb, "r": str(rs[rn]), "rn": rn, "x": "0", "t": 1758500000.123456})
+    # sizes BIP39 does not define
+    for nb in (0, 1, 32, 64, 96, 127, 129, 136, 144, 255, 257, 288, 512):
+        cases.append({"k": "badsize", "nb": nb})
     return cases
+
+
+def run_generate_more(case):
+    import buidl.mnemonic as bm
+
+    res = Res()
+    vc = {"engine": "generate", "case": case}
+    nb = case["nb"]
+    old = (bm.randbits, bm.time)
+    if case["k"] == "badsize":
+        bm.randbits = lambda k: 0
+        bm.time = lambda: 1.0
+        try:
+            got = attempt(bm.secure_mnemonic, nb)
+        finally:
+            bm.randbits, bm.time = old
+        if isinstance(got, Rejected) or got is None or got is False:
+            res.ok("size outside 128/160/192/224/256 bits rejected", nontrivial=("genbad", nb))
+        else:
+            res.violation("C14/generate/accepted-invalid-size", vc, got, None, f"secure_mnemonic(num_bits={nb}) returns a sentence; BIP39 defines only 128/160/192/224/256 bits")
+        return res
+    # k == "bits": the mocked randbits serves successive bit fields of one nb-bit value, so an implementation may
+    # draw its bits in one call or in several; the clock and extra_entropy are constants
+    r0, t = int(case["r"]), case["t"]
+
+    def run_with(r):
+        calls = []
+
+        def rb(k):
+            v = (r >> sum(calls)) & ((1 << k) - 1)
+            calls.append(k)
+            return v
+
+        bm.randbits = rb
+        bm.time = lambda: t
+        try:
+            return attempt(bm.secure_mnemonic, nb, int(case["x"])), calls
+        finally:
+            bm.randbits, bm.time = old
+
+    base, calls = run_with(r0)
+    if not calls:
+        res.skip("secure_mnemonic does not draw from buidl.mnemonic.randbits: random source not observable")
+        return res
+    if sum(calls) < nb:
+        res.violation("C14/generate/random-bits-requested", vc, {"randbits_calls": calls}, f">= {nb} bits", f"secure_mnemonic({nb}) requests only {sum(calls)} random bits for {nb} bits of entropy")
+        return res
+    seen = {}
+    good = 0
+    for i in [None] + list(range(nb)):
+        got, _ = run_with(r0 if i is None else r0 ^ (1 << i))
+        toks = got.split(" ") if isinstance(got, str) else []
+        e = R.decode(toks)
+        if e is None or len(e) * 8 != nb or any(tk not in R.INDEX for tk in toks):
+            res.violation("C14/generate/invalid-sentence", vc, {"flipped_bit": i, "got": got}, f"valid BIP39 sentence for {nb} bits", "secure_mnemonic returns a sentence that is not valid BIP39 of the requested size")
+            return res
+        if e in seen:
+            res.violation(
+                "C14/generate/random-bit-ignored", vc, {"flipped_bit": i, "same_entropy_as_flipped_bit": seen[e], "entropy": e}, "distinct entropies",
+                f"secure_mnemonic({nb}): flipping bit {i} of the random source gives the same entropy as flipping {seen[e]} (None = unflipped): that random bit does not reach the sentence",
+            )
+            return res
+        seen[e] = i
+        good += 1
+    res.bulk("every random bit changes the entropy, valid sentence", good, good - 1)
+    return res
 
 
 def run_generate(case):
     import buidl.mnemonic as bm
 
+    if case.get("k") in ("bits", "badsize"):
+        return run_generate_more(case)
     res = Res()
     vc = {"engine": "generate", "case": case}
     nb, r, x, t = case["nb"], int(case["r"]), int(case["x"]), case["t"]
@@ -734,6 +1049,454 @@ def run_generate(case):
     return res
 
 
+# ---------------------------------------------------------------- separators
+SEPS = {"sp": " ", "2sp": "  ", "tab": "\t", "nl": "\n", "crlf": "\r\n", "u3000": "\u3000", "nbsp": "\u00a0", "mix": " \t\n"}
+PADS = {"none": ("", ""), "lead": (" ", ""), "trail-nl": ("", "\n"), "both": ("  ", "\n ")}
+
+
+def gen_separators(tier, seed):
+    cases = []
+    for n in ENT:
+        for b in (["f0"] if tier == "quick" else ["f0", "f1", "zero"]):
+            for sep in SEPS:
+                for pad in PADS:
+                    if sep == "sp" and pad == "none":
+                        continue  # the canonical form: every other engine
+                    if tier == "quick" and n not in (16, 32) and sep != "sp" and pad != "none":
+                        continue  # quick: separators x paddings combined only for 12 and 24 words
+                    cases.append({"n": n, "base": b, "sep": sep, "pad": pad, "all_hd": tier == "thorough", "seed": seed})
+    return cases
+
+
+def invalid_last(words):
+    """The base sentence with its last word replaced by the next word of the list that makes the checksum wrong."""
+    i = R.INDEX[words[-1]]
+    for d in range(1, 2048):
+        t = words[:-1] + [R.WORDS[(i + d) % 2048]]
+        if R.decode(t) is None:
+            return t
+    raise AssertionError
+
+
+def run_separators(case):
+    from buidl.hd import HDPrivateKey
+    from buidl.mnemonic import mnemonic_to_bytes
+
+    res = Res()
+    vc = {"engine": "separators", "case": case}
+    n = case["n"]
+    e = base_entropy(case["seed"], n, case["base"])
+    words = R.encode(e)
+    sep, (lead, trail) = SEPS[case["sep"]], PADS[case["pad"]]
+    cls = "separator" if case["sep"] != "sp" else "padding"
+    key = (n, case["base"], case["sep"], case["pad"])
+
+    def write(toks):
+        return lead + sep.join(toks) + trail
+
+    bad = invalid_last(words)
+    for form in FORMS:
+        toks = spell(words, form)
+        got = attempt(mnemonic_to_bytes, write(toks))
+        if isinstance(got, Rejected) or got is None:
+            res.skip("sentence written with this separator/padding is rejected by mnemonic_to_bytes (not asserted)")
+        elif same(got, e):
+            res.ok("accepted form decodes like the single-space sentence", nontrivial=("sepdec", key, form))
+        else:
+            res.violation(f"C14/separators/decoded-bytes-differ/{cls}", vc, {"form": form, "got": got}, e, f"sentence written with separator {case['sep']} / padding {case['pad']} decodes to other bytes than the same words joined by single spaces")
+        # the same writing of an invalid sentence (wrong checksum; one word short) must stay rejected
+        for what, t in (("checksum", spell(bad, form)), ("length", toks[:-1])):
+            g = attempt(mnemonic_to_bytes, write(t))
+            if same(g, None):
+                res.ok(f"invalid {what} rejected in this writing", nontrivial=("sepbad", key, form, what))
+            else:
+                res.violation(f"C14/separators/accepted-invalid-{what}/{cls}", vc, {"form": form, "got": g}, None, f"invalid sentence ({what}) accepted when written with separator {case['sep']} / padding {case['pad']}")
+    plan = [("full", b""), ("full", b"TREZOR"), ("mixed", b"")]
+    if case.get("all_hd"):
+        plan = [(f, pp) for f in FORMS for pp in (b"", b"TREZOR")]
+    for form, pp in plan:
+        toks = spell(words, form)
+        got = attempt(lambda: HDPrivateKey.from_mnemonic(write(toks), pp).xprv())
+        if isinstance(got, Rejected) or got is None:
+            res.skip("sentence written with this separator/padding is rejected by from_mnemonic (not asserted)")
+            continue
+        exp = R.xprv(R.seed(toks, pp))
+        if got == exp:
+            res.ok("accepted form derives the key of the single-space sentence", nontrivial=("sephd", key, form, pp), sample={"sep": case["sep"], "pad": case["pad"], "xprv": exp[:16] + "..."} if case["sep"] == "crlf" and form == "full" and not pp else None)
+        else:
+            res.violation(
+                f"C14/separators/xprv-differs/{cls}", vc, {"form": form, "pp": pp, "got": got}, exp,
+                f"from_mnemonic of the sentence written with separator {case['sep']} / padding {case['pad']} gives another master key than the same words joined by single spaces",
+            )
+    g = attempt(lambda: HDPrivateKey.from_mnemonic(write(bad), b"").xprv())
+    if isinstance(g, Rejected) or g is None:
+        res.ok("from_mnemonic rejects the invalid sentence in this writing", nontrivial=("sephdbad", key))
+    else:
+        res.violation(f"C14/separators/from_mnemonic-accepted-invalid-checksum/{cls}", vc, g, None, f"from_mnemonic accepts a wrong-checksum sentence written with separator {case['sep']} / padding {case['pad']}")
+    return res
+
+
+# ---------------------------------------------------------------- tokens
+def with_word(words, p, w):
+    """A checksum-valid sentence that has word w at position p and otherwise the entropy bits of `words`
+    (the checksum bits in the last word are recomputed).  None when p is the last position and w does not carry
+    the right checksum bits.  Returns (words, entropy)."""
+    idx = [R.INDEX[x] for x in words]
+    idx[p] = R.INDEX[w]
+    bits = "".join(format(i, "011b") for i in idx)
+    ent = R.bytes_of(bits[: len(words) * 32 // 3])
+    new = R.encode(ent)
+    if new[p] != w:
+        return None
+    return new, ent
+
+
+def token_variants(w):
+    """(class, token) for strings derived from word w that are not w and not its four-letter prefix."""
+    out = []
+    for L in range(1, len(w)):
+        if not (L == 4 and len(w) > 4):
+            out.append(("proper-prefix", w[:L]))
+    out.append(("suffixed", w + "x"))
+    out.append(("suffixed", w[:4] + "z" if len(w) > 4 else w + "zz"))
+    out.append(("case", w.upper()))
+    out.append(("case", w.title()))
+    out.append(("case", w[:4].upper()))
+    seen, uniq = set(), []
+    for kind, tok in out:
+        if tok not in seen and tok != w:
+            seen.add(tok)
+            uniq.append((kind, tok))
+    return uniq
+
+
+def gen_tokens(tier, seed):
+    cases = []
+    plan = [(16, "f0", list(range(12))), (32, "f0", [0, 23])]
+    if tier == "thorough":
+        plan = [(n, b, list(range(nwords(n)))) for n in ENT for b in ("f0", "zero")]
+    for n, b, ps in plan:
+        for p in ps:
+            for lo in range(0, 2048, 256):
+                cases.append({"n": n, "base": b, "p": p, "lo": lo, "hi": lo + 256, "hd": p == 0 and n == 16, "seed": seed})
+    return cases
+
+
+def run_tokens(case):
+    from buidl.hd import HDPrivateKey
+    from buidl.mnemonic import mnemonic_to_bytes
+
+    res = Res()
+    vc = {"engine": "tokens", "case": case}
+    n, p = case["n"], case["p"]
+    words = R.encode(base_entropy(case["seed"], n, case["base"]))
+    counts = {"rej": 0, "den": 0}
+    for wi in range(case["lo"], case["hi"]):
+        w = R.WORDS[wi]
+        ctx = with_word(words, p, w)
+        if ctx is None:
+            continue  # last position: this word cannot close a valid sentence with these entropy bits
+        t0, ent = ctx
+        # honest control: the untouched sentence is accepted
+        got = attempt(mnemonic_to_bytes, " ".join(t0))
+        if not same(got, ent):
+            res.violation("C14/tokens/control-rejected", vc, {"word": w, "got": got}, ent, f"checksum-valid sentence with {w!r} at position {p} not decoded to its entropy")
+            continue
+        for kind, tok in token_variants(w):
+            t = list(t0)
+            t[p] = tok
+            s = " ".join(t)
+            got = attempt(mnemonic_to_bytes, s)
+            if R.resolve(tok) is not None:
+                # the derived string happens to be another word (bar <- barely) : an ordinary sentence
+                exp = R.decode(t)
+                if same(got, exp):
+                    counts["den"] += 1
+                else:
+                    res.violation(f"C14/tokens/{cls_accept(got, exp)}/prefix-that-is-a-word", vc, {"token": tok, "got": got}, exp, f"token {tok!r} (a word of the list) at position {p}")
+                continue
+            accepted = not (isinstance(got, Rejected) or got is None or got is False)
+            hd = None
+            if case["hd"]:
+                hd = attempt(lambda: HDPrivateKey.from_mnemonic(s).xprv())
+                if isinstance(hd, Rejected) or hd is None:
+                    hd = None
+            if not accepted and hd is None:
+                counts["rej"] += 1
+                continue
+            # accepted although the token denotes no word.  Outside the statement's alphabet (not asserted) only when
+            # it can mean nothing else: a case variant of w, or a prefix no other word starts with - and then the
+            # result must be the one of w
+            benign = kind == "case" or (kind == "proper-prefix" and R.candidates(tok) == [wi])
+            if accepted:
+                if benign and same(got, ent):
+                    res.skip(f"{kind} token accepted as the only word it can denote (outside the statement's alphabet, not asserted)")
+                else:
+                    res.violation(
+                        f"C14/tokens/accepted-non-word/{kind if not benign else kind + '-decoded-wrong'}", vc, {"token": tok, "word": w, "got": got}, None,
+                        f"mnemonic_to_bytes accepts a sentence whose token #{p} {tok!r} is neither a word of the list nor a four-letter prefix",
+                    )
+            if hd is not None:
+                if benign and hd == R.xprv(R.seed(t0, b"")):
+                    res.skip(f"{kind} token accepted by from_mnemonic as the only word it can denote (outside the statement's alphabet, not asserted)")
+                else:
+                    res.violation(
+                        f"C14/tokens/from_mnemonic-accepted-non-word/{kind if not benign else kind + '-key-wrong'}", vc, {"token": tok, "word": w, "got": hd}, None,
+                        f"from_mnemonic accepts a sentence whose token #{p} {tok!r} is neither a word of the list nor a four-letter prefix",
+                    )
+    res.bulk("non-denoting token rejected", counts["rej"], counts["rej"])
+    res.bulk("derived token that is itself a word: outcome==ref", counts["den"], counts["den"])
+    return res
+
+
+# ---------------------------------------------------------------- hd_args
+HD_COMBOS = {  # name -> (password, network, how the arguments are passed)
+    "password": (b"TREZOR", "mainnet", "positional"),
+    "password+network": (b"\xff", "testnet", "keyword"),
+    "network": (b"", "signet", "keyword"),
+}
+HD_PATHS = ["m/0", "m/0'", "m/44'/0'/0'/0/1", "m/2147483647'/2147483647"]
+HD_VERSIONS = {"mainnet": ["zprv", "Zprv", "yprv"], "testnet": ["vprv", "Vprv"]}
+
+
+def gen_hd_args(tier, seed):
+    cases = []
+    for n in ENT:
+        # quick: the full 2048-word sweep for 21 and 24 words, every 8th word for 12..18 words (the accepted ones cost a key derivation)
+        step = 1 if (tier == "thorough" or n >= 28) else 8
+        for combo in HD_COMBOS:
+            for lo in range(0, 2048, 128):
+                cases.append({"k": "reject", "n": n, "base": "f0", "combo": combo, "lo": lo, "hi": lo + 128, "step": step, "seed": seed})
+    for combo in HD_COMBOS:
+        for L in range(9, 28):
+            cases.append({"k": "length", "n": 16, "base": "f0", "combo": combo, "L": L, "seed": seed})
+    # one dimension away from (mainnet, default versions, path m) at a time, then combined
+    for n in (16, 32) if tier == "quick" else ENT:
+        for net in ("testnet", "signet", "regtest"):
+            cases.append({"k": "derive", "n": n, "base": "f1", "pp": "TREZOR", "net": net, "ver": None, "path": "m", "dim": f"network-{net}", "seed": seed})
+        for ver in HD_VERSIONS["mainnet"]:
+            cases.append({"k": "derive", "n": n, "base": "f1", "pp": "TREZOR", "net": "mainnet", "ver": ver, "path": "m", "dim": "versions", "seed": seed})
+        for path in HD_PATHS:
+            cases.append({"k": "derive", "n": n, "base": "f1", "pp": "TREZOR", "net": "mainnet", "ver": None, "path": path, "dim": "path", "seed": seed})
+        for ver in HD_VERSIONS["testnet"]:
+            for path in HD_PATHS[:2] if tier == "quick" else HD_PATHS:
+                cases.append({"k": "derive", "n": n, "base": "f1", "pp": "", "net": "testnet", "ver": ver, "path": path, "dim": "combined", "seed": seed})
+    return cases
+
+
+def call_from_mnemonic(sentence, pp, net, how, path="m", pv=None, pubv=None):
+    from buidl.hd import HDPrivateKey
+
+    if how == "positional":
+        if pv is None and pubv is None:
+            return HDPrivateKey.from_mnemonic(sentence, pp, path, net)
+        return HDPrivateKey.from_mnemonic(sentence, pp, path, net, pv, pubv)
+    return HDPrivateKey.from_mnemonic(mnemonic=sentence, password=pp, path=path, network=net, priv_version=pv, pub_version=pubv)
+
+
+def run_hd_args(case):
+    res = Res()
+    vc = {"engine": "hd_args", "case": case}
+    n = case["n"]
+    words = R.encode(base_entropy(case["seed"], n, case["base"]))
+    k = case["k"]
+    if k in ("reject", "length"):
+        pp, net, how = HD_COMBOS[case["combo"]]
+        refnet = "mainnet" if net == "mainnet" else "testnet"
+        if k == "reject":
+            seqs = []
+            for wi in range(case["lo"], case["hi"], case["step"]):
+                seqs.append(words[:-1] + [R.WORDS[wi]])
+        else:
+            seqs = [(words * 3)[: case["L"]]]
+        for t in seqs:
+            exp = R.decode(t)
+            got = attempt(lambda: call_from_mnemonic(" ".join(t), pp, net, how).xprv())
+            rejected = isinstance(got, Rejected) or got is None
+            if exp is None:
+                if rejected:
+                    res.ok("invalid sentence rejected whatever the other arguments", nontrivial=("hdrej", k, n, case["combo"], tuple(t[-2:]), len(t)))
+                else:
+                    why = "checksum" if len(t) in R.WORD_COUNTS else "length"
+                    res.violation(
+                        f"C14/hd_args/accepted-invalid-{why}/{case['combo']}", vc, {"last": t[-1], "words": len(t), "got": got}, None,
+                        f"from_mnemonic(password={pp!r}, network={net!r}) accepts a {len(t)}-word sentence with a wrong {why}",
+                    )
+                continue
+            ex = R.xprv(R.seed(t, pp), refnet)
+            if got == ex:
+                res.ok("valid sentence: xprv==ref for this password/network", nontrivial=("hdacc", k, n, case["combo"], t[-1], len(t)))
+            elif rejected:
+                res.violation(f"C14/hd_args/rejected-valid/{case['combo']}", vc, {"last": t[-1], "got": got}, ex, f"from_mnemonic(password={pp!r}, network={net!r}) refuses a valid {len(t)}-word sentence")
+            else:
+                res.violation(f"C14/hd_args/xprv-differs/{case['combo']}", vc, {"last": t[-1], "got": got}, ex, f"from_mnemonic(password={pp!r}, network={net!r}): master key differs from the reference")
+        return res
+    # k == "derive"
+    pp = case["pp"].encode()
+    net, path, ver = case["net"], case["path"], case["ver"]
+    master = B32.master(R.seed(words, pp))
+    node = B32.derive_priv(master, B32.parse_path(path))
+    if master is None or node is None:
+        res.skip("seed/path gives an invalid BIP32 key (probability 2^-127)")
+        return res
+    dpv, dpubv = B32.default_versions(net)
+    pv = B32.version_bytes(ver) if ver else None
+    pubv = B32.version_bytes(B32.counterpart(ver)) if ver else None
+    exp = {
+        "xprv": node.ser(pv or dpv, True), "xpub": node.ser(pubv or dpubv, False), "secret": node.k, "chain": node.c,
+        "depth": node.depth, "child": node.num, "pfp": node.pfp,
+    }
+
+    def observe():
+        key = call_from_mnemonic(" ".join(words), pp, net, "keyword" if ver else "positional", path, pv, pubv)
+        return {
+            "xprv": key.xprv(), "xpub": key.xpub(), "secret": key.private_key.secret, "chain": bytes(key.chain_code),
+            "depth": key.depth, "child": key.child_number, "pfp": bytes(key.parent_fingerprint),
+        }
+
+    got = attempt(observe)
+    if got == exp:
+        res.ok("key at path / network / versions == reference", nontrivial=("hdder", n, net, ver, path), sample={"net": net, "ver": ver, "path": path, "xprv": exp["xprv"][:20] + "..."} if case["dim"] == "combined" else None)
+    elif isinstance(got, Rejected):
+        res.violation(f"C14/hd_args/derive/rejected/{case['dim']}", vc, got, exp["xprv"], f"from_mnemonic(network={net!r}, path={path!r}, versions={ver}) refuses a valid sentence")
+    else:
+        which = "+".join(x for x in ("secret", "chain", "depth", "child", "pfp", "xprv", "xpub") if got.get(x) != exp[x])
+        which = "key-material" if ("secret" in which or "chain" in which) else "serialization" if which in ("xprv", "xpub", "xprv+xpub") else "metadata"
+        res.violation(f"C14/hd_args/derive/{which}/{case['dim']}", vc, got, exp, f"from_mnemonic(network={net!r}, path={path!r}, versions={ver}): key differs from PBKDF2 seed + BIP32 derivation")
+    return res
+
+
+# ---------------------------------------------------------------- generate_hd
+def gen_generate_hd(tier, seed):
+    cases = []
+    nb = 256
+    rs = {"0": 0, "max": (1 << nb) - 1, "f": int.from_bytes(filler(seed, "c14-rand", nb, nb // 8), "big")}
+    xs = {"0": 0, "2^256+1": (1 << nb) + 1} if tier == "quick" else {"0": 0, "1": 1, "max": (1 << nb) - 1, "2^256+1": (1 << nb) + 1}
+    for rn, r in rs.items():
+        for xn, x in xs.items():
+            for pp in ("", "TREZOR", "ff00"):
+                for net in ("mainnet", "testnet", "signet"):
+                    cases.append({"r": str(r), "rn": rn, "x": str(x), "xn": xn, "pp": pp, "net": net, "t": 1758500000.123456})
+    return cases
+
+
+GEN_PP = {"": b"", "TREZOR": b"TREZOR", "ff00": b"\xff\x00"}
+
+
+def run_generate_hd(case):
+    import buidl.mnemonic as bm
+    from buidl.hd import HDPrivateKey
+
+    res = Res()
+    vc = {"engine": "generate_hd", "case": case}
+    r, x, t, pp, net = int(case["r"]), int(case["x"]), case["t"], GEN_PP[case["pp"]], case["net"]
+    old = (bm.randbits, bm.time)
+    bm.randbits = lambda k: r & ((1 << k) - 1)
+    bm.time = lambda: t
+    try:
+        got = attempt(lambda: HDPrivateKey.generate(password=pp, extra_entropy=x, network=net))
+        if not isinstance(got, Rejected):
+            got = attempt(lambda: (got[0], {"xprv": got[1].xprv(), "secret": got[1].private_key.secret, "chain": bytes(got[1].chain_code)}))
+    finally:
+        bm.randbits, bm.time = old
+    if isinstance(got, Rejected):
+        res.violation("C14/generate_hd/raised", vc, got, "(sentence, key)", f"HDPrivateKey.generate(password={pp!r}, extra_entropy={case['xn']}, network={net!r}) fails")
+        return res
+    sentence, key = got
+    toks = sentence.split(" ") if isinstance(sentence, str) else []
+    if R.decode(toks) is None or any(tk not in R.INDEX for tk in toks):
+        res.violation("C14/generate_hd/invalid-sentence", vc, sentence, "valid BIP39 sentence of full words", "HDPrivateKey.generate returns a sentence that is not valid BIP39")
+        return res
+    refnet = "mainnet" if net == "mainnet" else "testnet"
+
+    def ref(p_, n_):
+        s_ = R.seed(toks, p_)
+        m_ = R.master(s_)
+        return {"xprv": R.xprv(s_, n_), "secret": m_[0], "chain": m_[1]}
+
+    exp = ref(pp, refnet)
+    if key == exp:
+        res.ok("generated key == reference key of the generated sentence", nontrivial=("genhd", case["rn"], case["xn"], case["pp"], net), sample={"pp": case["pp"], "net": net, "xprv": exp["xprv"][:16] + "..."} if case["rn"] == "f" and case["xn"] == "0" else None)
+        return res
+    if pp and key == ref(b"", refnet):
+        cause = "password-ignored"
+    elif key.get("secret") == exp["secret"] and key.get("chain") == exp["chain"]:
+        cause = f"network-{net}"
+    else:
+        cause = "any-input"
+    res.violation(f"C14/generate_hd/key-differs/{cause}", vc, key, exp, f"HDPrivateKey.generate(password={pp!r}, network={net!r}): the returned key is not the key of the returned sentence with that password")
+    return res
+
+
+# ---------------------------------------------------------------- seedpicker
+def entropy_with_last_word(seed, n, widx):
+    """An n-byte entropy whose sentence ends with word widx (deterministic search over filler values)."""
+    cs = n // 4
+    top = widx >> cs  # the entropy bits carried by the last word
+    want = format(widx & ((1 << cs) - 1), f"0{cs}b")
+    for c in range(1 << 16):
+        v = int.from_bytes(filler(seed, "c14-lastword", c * 64 + n, n), "big")
+        v = (v >> (11 - cs) << (11 - cs)) | top
+        e = v.to_bytes(n, "big")
+        if R.checksum_bits(e) == want:
+            assert R.encode(e)[-1] == R.WORDS[widx]
+            return e
+    raise AssertionError
+
+
+def gen_seedpicker(tier, seed):
+    cases = []
+    for n in ENT:
+        plan = [("f0", "full")]
+        if n == 32 or tier == "thorough":
+            plan += [("f0", "prefix"), ("w0", "full"), ("w0", "prefix"), ("w2047", "full"), ("w2047", "mixed")]
+        if tier == "thorough":
+            plan += [("zero", "full"), ("ones", "mixed")]
+        for b, form in plan:
+            e = entropy_with_last_word(seed, n, int(b[1:])) if b.startswith("w") else base_entropy(seed, n, b)
+            cases.append({"k": "list", "n": n, "e": e.hex(), "nm": b, "form": form})
+        for d in (1, -1, -2):
+            cases.append({"k": "badlen", "n": n, "e": base_entropy(seed, n, "f0").hex(), "nm": "f0", "d": d})
+    return cases
+
+
+def run_seedpicker(case):
+    import collections
+
+    from buidl.hd import calc_valid_seedpicker_checksums
+
+    res = Res()
+    vc = {"engine": "seedpicker", "case": case}
+    words = R.encode(bytes.fromhex(case["e"]))
+    if case["k"] == "badlen":
+        first = (words * 2)[: len(words) - 1 - case["d"]]
+        got = attempt(lambda: list(calc_valid_seedpicker_checksums(" ".join(first))))
+        if isinstance(got, Rejected) or not got:
+            res.ok("no checksum word offered for a wrong number of first words", nontrivial=("spbad", case["n"], case["d"]))
+        else:
+            res.violation("C14/seedpicker/yielded-for-invalid-length", vc, got[:5], "nothing", f"{len(first)} first words cannot be completed to a valid sentence but {len(got)} checksum words are offered")
+        return res
+    form = case["form"]
+    first = spell(words, form)[:-1]
+    exp = [w for w in R.WORDS if R.decode(first + [w]) is not None]
+    assert len(exp) == 2048 >> (len(words) // 3) and words[-1] in exp
+    got = attempt(lambda: list(calc_valid_seedpicker_checksums(" ".join(first))))
+    sp = "full" if form == "full" else "abbrev"
+    if isinstance(got, Rejected):
+        res.violation(f"C14/seedpicker/raised/{sp}", vc, got, exp[:5], f"calc_valid_seedpicker_checksums fails on {len(first)} valid first words ({form} spelling)")
+        return res
+    cg, ce = collections.Counter(got), collections.Counter(exp)
+    missing, extra = sorted((ce - cg).elements()), sorted((cg - ce).elements(), key=str)
+    if not missing and not extra:
+        res.ok("offered checksum words == words the reference accepts", nontrivial=("sp", case["n"], case["nm"], form), n=len(exp), sample={"n": case["n"], "first": first[:2] + ["..."], "offered": len(got)} if case["nm"] == "w0" else None)
+        return res
+    if missing:
+        res.violation(f"C14/seedpicker/missing-valid-word/{sp}", vc, {"missing": missing[:8], "offered": len(got)}, {"count": len(exp)}, f"{len(missing)} last words with a correct checksum are not offered ({form} spelling of the first words)")
+    if extra:
+        res.violation(f"C14/seedpicker/offered-invalid-word/{sp}", vc, {"extra": extra[:8], "offered": len(got)}, {"count": len(exp)}, f"{len(extra)} offered last words do not give a valid sentence ({form} spelling of the first words)")
+    return res
+
+
 # ---------------------------------------------------------------- registry
 def engines(tier, seed):
     return [
@@ -747,7 +1510,8 @@ def engines(tier, seed):
             "encode", gen_encode, run_encode, kind="E1",
             rule="entropy lengths 16/20/24/28/32 bytes x {00.., ff.., 80 00.., 00..01, 7f ff.., ff..fe, fillers, every single bit set, every single "
             "bit cleared, and for each base entropy every word window x every 11-bit value}: bytes_to_mnemonic == reference words, "
-            "mnemonic_to_bytes(words) == entropy in full / 4-letter-prefix / mixed spelling (4 comparisons per entropy). Non-trivial = distinct entropy",
+            "mnemonic_to_bytes(words) == entropy in full / 4-letter-prefix / mixed spelling (4 comparisons per entropy). Plus every entropy size 0..40 "
+            "bytes (thorough 0..80) other than the five valid ones x {00.., ff.., filler} with num_bits = 8*len: bytes_to_mnemonic rejects. Non-trivial = distinct entropy",
         ),
         Engine(
             "accept", gen_accept, run_accept, kind="E1",
@@ -757,7 +1521,9 @@ def engines(tier, seed):
         Engine(
             "pairs", gen_pairs, run_pairs, kind="E1",
             rule="12-word base x position pair (p, last) x 2048 x 2048 double substitutions: accepted <=> reference accepts, bytes equal. quick p=0 with every 4th word (512) x all 2048 last words; "
-            "thorough every p < last, plus the 24-word base with p=0 and p=22. Non-trivial = every pair (distinct by construction)",
+            "thorough every p < last, plus the 24-word base with p=0 and p=22, plus (12 words) every position pair p < q < last x 64 x 64 words of a fixed "
+            "64-word sub-alphabet (list ends, middle, every 38th word) and the triples (p, q, last) for 4 position pairs x 16 x 16 sub-alphabet words x all 2048 "
+            "last words. Non-trivial = every pair (distinct by construction)",
         ),
         Engine(
             "lengths", gen_lengths, run_lengths, kind="E1",
@@ -774,18 +1540,65 @@ def engines(tier, seed):
             "seed", gen_seed, run_seed, kind="E1",
             rule="5 lengths x base entropies x 3 spellings x passphrases {empty, TREZOR, NFKD UTF-8, raw high bytes, NUL, space, 100, 200 bytes; thorough: "
             "boundary lengths and every single byte value} x networks: xprv, secret and chain code == hashlib.pbkdf2_hmac(sha512, sentence, "
-            "'mnemonic'+passphrase, 2048) + reference BIP32 master. Non-trivial = each case",
+            "'mnemonic'+passphrase, 2048) + reference BIP32 master. Plus passphrases given as str {empty, ASCII, precomposed Latin, NFC / NFD e-acute, "
+            "katakana, CJK, compatibility characters} on 12/24-word sentences (thorough: 5 lengths x 3 spellings): rejected, or the key of the NFKD-normalised "
+            "UTF-8 encoding. Non-trivial = each case",
         ),
         Engine(
             "pbkdf2", gen_pbkdf2, run_pbkdf2, kind="E2",
             rule="vendored PBKDF2 object as a state machine: every history of read()/hexread() sizes of depth <= 3 over {1,31,64,65} (thorough "
             "{0,1,19,20,21,31,63,64,65,128,129}) x iterations {1,2,3,2048} x SHA-1/SHA-512/default x (password, salt) alphabet incl. empty, > block size, "
             "str (UTF-8) inputs: each read equals the corresponding slice of hashlib.pbkdf2_hmac; plus helper.hmac_sha512_kdf over the alphabet. "
-            "states/transitions = reads executed",
+            "Two objects alive together (6 configurations: identical, or differing in iterations / password / salt / hash, and the 2048-round BIP39 setting): "
+            "every interleaving of (object, read size) of depth <= 3 over sizes {1,64,65} (thorough {0,1,20,64,65,129}; 2048 rounds: depth <= 2 over {32,64}), each read == "
+            "that object's own hashlib stream. Length sweep: every password length and every salt length 0..260 x SHA-1/SHA-512 at 2 iterations (70-byte read), and "
+            "hmac_sha512_kdf for every password length 120..136 (thorough 0..260). states/transitions = reads executed",
         ),
         Engine(
             "generate", gen_generate, run_generate, kind="E1",
             rule="secure_mnemonic with buidl.mnemonic.randbits/time replaced by enumerated values: 5 sizes x randbits {0,1,max,msb,filler} x extra_entropy "
-            "{0,1,max,2^n,2^n+1,2^512+3} x clock values: result is a valid reference BIP39 sentence of the requested size made of full words",
+            "{0,1,max,2^n,2^n+1,2^512+3} x clock values: result is a valid reference BIP39 sentence of the requested size made of full words. "
+            "Sizes {0,1,32,64,96,127,129,136,144,255,257,288,512} bits are rejected. Random source: randbits serves successive bit fields of one n-bit value "
+            "(recorded), clock and extra_entropy constant; 5 sizes x base values {0, filler} (thorough + all-ones) x every single bit of the value flipped: at least n "
+            "random bits are requested and the n+1 resulting entropies are pairwise distinct (skipped if randbits is never called)",
+        ),
+        Engine(
+            "separators", gen_separators, run_separators, kind="E1",
+            rule="base sentence per length x separator {1 space, 2 spaces, TAB, LF, CRLF, U+3000, U+00A0, ' \\t\\n'} x padding {none, leading space, trailing LF, "
+            "both} (quick: the full product for 12 and 24 words, for 15/18/21 words separators and paddings separately; thorough 3 bases, full product) x 3 spellings "
+            "through mnemonic_to_bytes, and {full, full+TREZOR, mixed} (thorough all 6) through HDPrivateKey.from_mnemonic. Oracle: a writing the library rejects is "
+            "not asserted (skipped); a writing it accepts must decode to the bytes / derive the reference xprv of the same words joined by single spaces; the same "
+            "writing of a wrong-checksum sentence and of the sentence minus its last word must be rejected. Non-trivial = each accepted or rejected comparison",
+        ),
+        Engine(
+            "tokens", gen_tokens, run_tokens, kind="E1",
+            rule="12-word base x every position (and 24-word base x first/last position; thorough all 5 lengths x 2 bases x every position) x every one of the 2048 words w "
+            "placed there with the checksum bits of the last word recomputed (a valid sentence, checked as control; at the last position only the words that carry "
+            "the right checksum) x every string derived from w: each proper prefix of 1..len-1 letters other than the four-letter prefix, w+'x', prefix4+'z', upper / "
+            "title case, upper-case prefix. mnemonic_to_bytes (and from_mnemonic at position 0 of the 12-word base) must reject; accepted is a violation unless the string can "
+            "denote only w (case variant, or a prefix no other word starts with) and the result is the one of w (skipped: outside the statement's alphabet); derived strings that are "
+            "themselves words (bar <- barely) follow the reference checksum rule. Non-trivial = each rejected derived sentence",
+        ),
+        Engine(
+            "hd_args", gen_hd_args, run_hd_args, kind="E1",
+            rule="HDPrivateKey.from_mnemonic with (password, network) in {(TREZOR, mainnet) positional, (0xff, testnet) keyword, (empty, signet) keyword} x base sentence "
+            "of each length x the last word replaced by every word (quick: all 2048 for 21/24 words, every 8th for 12/15/18 words; thorough all): raises <=> reference "
+            "rejects, accepted ones give the reference xprv for that password and network; x every sentence length 9..27 of the repeated 12-word base: invalid ones rejected. "
+            "Derivation arguments one at a time and combined: network {testnet, signet, regtest}, SLIP-132 versions {zprv, Zprv, yprv / vprv, Vprv with their public "
+            "counterparts}, path {m/0, m/0', m/44'/0'/0'/0/1, m/2147483647'/2147483647}: xprv, xpub, secret, chain code, depth, child number, parent fingerprint == "
+            "independent BIP32 reference (mc.ref.bip32ref) applied to the reference seed. Non-trivial = each sentence / argument combination",
+        ),
+        Engine(
+            "generate_hd", gen_generate_hd, run_generate_hd, kind="E1",
+            rule="HDPrivateKey.generate with buidl.mnemonic.randbits/time replaced: randbits {0, all ones, filler} x extra_entropy {0, 2^256+1} (thorough + {1, 2^256-1}) x "
+            "password {empty, TREZOR, 0xff00} x network {mainnet, testnet, signet}: the returned sentence is a valid reference sentence of full words and the returned "
+            "key (xprv, secret, chain code) is the reference key of that sentence with that password on that network. Non-trivial = each case",
+        ),
+        Engine(
+            "seedpicker", gen_seedpicker, run_seedpicker, kind="E1",
+            rule="calc_valid_seedpicker_checksums on the first N-1 words of a base sentence of each length (full spelling; for 24 words - thorough: every length - also "
+            "prefix spelling and entropies searched so that the FIRST word of the list, resp. the LAST word of the list, is a valid last word): the multiset of offered words == "
+            "the words w for which the reference accepts first+[w] (128/64/32/16/8 words); x first-word counts N-2, N, N+1 (no valid total length): nothing offered. "
+            "Non-trivial = each case; evaluations count the offered words",
         ),
     ]
